@@ -19,8 +19,9 @@ TInit == /\ tid \in 1..Len(Traces) /\ l = 1 /\ tb = Traces[tid].tb
          /\ TLCSet(tid, 1)
 \* the build is refused exactly when nothing lies behind the requested start; otherwise the image starts where InitSnap says
 TBuild == /\ Is("Build") /\ (HRefuse \/ HBuild) /\ act'.refused = E.refused /\ (~E.refused => act'.eff = E.eff) /\ Adv
-\* bytes between two segments: exactly the predicted range, all of them the device pattern
-TGap == /\ Is("Gap") /\ HGap /\ E.from = act'.from /\ E.to = act'.to /\ E.pat /\ Adv
+\* bytes between two segments: exactly the predicted range, all of them the device pattern - the leading `rest` bytes, which are the
+\* unused part of the slot of a fixed-size segment whose payload is shorter than the slot, just like the bytes between two slots
+TGap == /\ Is("Gap") /\ HGap /\ E.from = act'.from /\ E.to = act'.to /\ E.rest = act'.rest /\ E.restPat /\ E.pat /\ Adv
 \* the next included segment: its payload is found at the cursor, complete, and the API reports the same offset and length
 TSeg == /\ Is("Seg") /\ HSeg /\ E.i = act'.i /\ E.at = act'.at /\ E.len = act'.len /\ E.ok
         /\ E.apiOff = E.at /\ E.apiLen = E.len /\ Adv
